@@ -606,10 +606,11 @@ func rpo(fn *ssa.Function) []*ssa.BasicBlock {
 	var dfs func(b *ssa.BasicBlock)
 	dfs = func(b *ssa.BasicBlock) {
 		seen[b] = true
-		// successors in reverse, so that the reverse postorder lists the "then" side first
-		// (ordinals of anchors and obligations then follow the source order)
-		for k := len(b.Succs) - 1; k >= 0; k-- {
-			s := b.Succs[k]
+		// successors by descending block index (blocks are numbered in source order), so that the
+		// reverse postorder follows the source order: ordinals of anchors and obligations are stable
+		succs := append([]*ssa.BasicBlock{}, b.Succs...)
+		sort.Slice(succs, func(i, j int) bool { return succs[i].Index > succs[j].Index })
+		for _, s := range succs {
 			if !seen[s] && !s.Dominates(b) {
 				dfs(s)
 			}
